@@ -567,28 +567,32 @@ Section Proofs.
 
   (* two error variants of PacketError are dead code in Packet::decode: the static header always
      has 23 bytes after the size guards, and NodeId::parse only sees 32-byte slices *)
-  Lemma kind_decode_spec_no_invalid_node_id flag ad : kind_decode_spec flag ad <> Err InvalidNodeId.
+  Lemma kind_decode_spec_errors flag ad e : kind_decode_spec flag ad = Err e ->
+    e = InvalidAuthDataSize \/ e = InvalidEnr \/ e = UnknownPacket.
   Proof.
     unfold kind_decode_spec.
     destruct flag as [|[p|[p|p|]|]];
       repeat match goal with
              | |- context [if ?c then _ else _] => destruct c
              | |- context [match enr_decode ?x with _ => _ end] => destruct (enr_decode x)
-             end; discriminate.
+             end; intro H; inversion H; auto.
   Qed.
 
   Theorem decode_dead_errors local data :
     decode local data <> Err InvalidNodeId /\ forall n, decode local data <> Err (HeaderLengthInvalid n).
   Proof.
     rewrite decode_view. unfold decode_spec.
-    pose proof (kind_decode_spec_no_invalid_node_id (nth 8 (sh_of local data) 0%N) (ad_of local data)) as H.
+    pose proof (kind_decode_spec_errors (nth 8 (sh_of local data) 0%N) (ad_of local data)) as H.
     split; [|intro n];
       repeat match goal with
              | |- context [if ?c then _ else _] => destruct c; try discriminate
              end;
-      destruct (kind_decode_spec (nth 8 (sh_of local data) 0%N) (ad_of local data)); try congruence;
+      destruct (kind_decode_spec (nth 8 (sh_of local data) 0%N) (ad_of local data)) as [k|e|];
       try discriminate;
-      destruct (negb (is_nil (skipn (39 + asz_of local data) data)) && is_whoareyou a); discriminate.
+      try (destruct (H e eq_refl) as [->|[->| ->]]; discriminate);
+      repeat match goal with
+             | |- context [if ?c then _ else _] => destruct c; try discriminate
+             end.
   Qed.
 
   Theorem encode_length (p : packet enr) dst :
